@@ -1,7 +1,10 @@
 #!/bin/bash
-# usage: tools/try_seed.sh <patch.diff> <PROP> [extra vv args]  -- applies a seeded change to /repo, runs the quick check, reverts
+# usage: tools/try_seed.sh <patch.diff> <PROP> [extra vv args]
+# applies a seeded change to a scratch worktree of /repo HEAD and runs the check against that worktree (VERIF_REPO)
 P=$1; ID=$2; shift 2
-cd /repo && git apply --3way "$P" 2>/dev/null || git apply "$P" || { echo "PATCH DOES NOT APPLY"; exit 9; }
-git -C /repo diff --stat | tail -1
-cd /verif && timeout 3000 ./vv check $ID "$@" 2>&1 | grep -E "VIOLATION|KNOWN|HARNESS|rc=|note:" | head -12
-cd /repo && git reset -q && git checkout -q -- . && git status --short | grep -v '^??'
+WT=$(mktemp -d /tmp/ts_XXXXXX); rmdir $WT
+git -C /repo worktree add -q --detach $WT HEAD || exit 9
+trap "git -C /repo worktree remove --force $WT" EXIT
+( cd $WT && (git apply --3way "$P" 2>/dev/null || git apply "$P") ) || { echo "PATCH DOES NOT APPLY"; exit 9; }
+git -C $WT diff HEAD --stat | tail -1
+cd /verif && VERIF_REPO=$WT VERIF_EVIDENCE_DIR=/tmp/ts_evidence VERIF_PROGRESS=0 timeout 3000 ./vv check $ID "$@" 2>&1 | grep -E "VIOLATION|KNOWN|HARNESS|rc=|note:" | grep -v Traceback | cut -c1-260 | head -14
